@@ -139,6 +139,30 @@ func (x *Exec) libCall(fr *Frame, st *State, key string, callee *ssa.Function, a
 		x.s.declareUF(fn, "("+x.s.strSort()+" "+x.s.strSort()+")", x.s.strSort())
 		x.trust(key + " is a pure function of its arguments (uninterpreted)")
 		return V{T: rt, S: "(" + fn + " " + args[0].S + " " + args[1].S + ")"}, true
+	case "sort.Slice", "sort.SliceStable":
+		// sort.Slice(x, less): permutes the elements of x in place. Modelled effect: the
+		// elements of x's backing array inside [off, off+len) are replaced by unknown values
+		// (the permutation and sortedness facts are not used by any claimed obligation);
+		// everything outside that window is unchanged.
+		if x.curCall != nil {
+			if mi, ok := x.curCall.Args[0].(*ssa.MakeInterface); ok {
+				sv := x.value(fr, mi.X)
+				if sl, ok := sv.T.Underlying().(*types.Slice); ok {
+					et := sl.Elem()
+					key := heapKeySlice(et)
+					sarr := x.heapGet(st, key, et)
+					na := x.s.declare("sorted", "(Array Int "+x.s.sortOf(et)+")")
+					x.assume(st.guard, fmt.Sprintf("(forall ((ai! Int)) (! (=> (or (< ai! (s_off %s)) (>= ai! (+ (s_off %s) (s_len %s)))) (= (select %s ai!) (select (select %s (s_base %s)) ai!))) :pattern ((select %s ai!))))",
+						sv.S, sv.S, sv.S, na, sarr, sv.S, na))
+					if inv := x.s.typeInv(et, "(select "+na+" ai!)"); inv != "true" {
+						x.assume(st.guard, fmt.Sprintf("(forall ((ai! Int)) (! %s :pattern ((select %s ai!))))", inv, na))
+					}
+					x.heapSet(st, key, et, "(ite (= (s_base "+sv.S+") 0) "+sarr+" (store "+sarr+" (s_base "+sv.S+") "+na+"))")
+					x.trust("sort.Slice(x, less) only rearranges the elements of x (modelled as: elements of x become unknown, nothing else changes; less is assumed pure)")
+					return V{T: rt}, true
+				}
+			}
+		}
 	case "time.Now":
 		x.trust("time.Now returns an arbitrary value")
 		return x.freshOfType(st, rt, "now"), true
@@ -198,6 +222,12 @@ func (x *Exec) libMods(key string, cc *ssa.CallCommon) ([]modTarget, bool) {
 	case "slices.Clone", "bytes.Clone":
 		if sl, ok := cc.Args[0].Type().Underlying().(*types.Slice); ok {
 			return []modTarget{{key: heapKeySlice(sl.Elem()), t: sl.Elem()}}, true
+		}
+	case "sort.Slice", "sort.SliceStable":
+		if mi, ok := cc.Args[0].(*ssa.MakeInterface); ok {
+			if sl, ok := mi.X.Type().Underlying().(*types.Slice); ok {
+				return []modTarget{{key: heapKeySlice(sl.Elem()), t: sl.Elem()}}, true
+			}
 		}
 	}
 	return nil, false
